@@ -171,3 +171,11 @@ func (r shortByteReader) ReadByte() (byte, error) {
 		}
 	}
 }
+
+func sortInts(a []int) {
+	for i := 1; i < len(a); i++ {
+		for j := i; j > 0 && a[j] < a[j-1]; j-- {
+			a[j], a[j-1] = a[j-1], a[j]
+		}
+	}
+}
